@@ -31,28 +31,36 @@ theorem StoredK_empty : ∀ (ks : List KEdge) (vk : Option Bytes) (m : Meth), ¬
 
 theorem lookupSeg_upsert_same (cs : List (Bytes × Node)) (k : Bytes) (v : Node) :
     lookupSeg (upsertSeg cs k v) k = some v := by
+  unfold upsertSeg
   induction cs with
-  | nil => simp [upsertSeg, lookupSeg]
+  | nil => simp [upsertKV, lookupSeg]
   | cons p rest ih =>
     obtain ⟨k', v'⟩ := p
-    unfold upsertSeg
+    unfold upsertKV
     by_cases h : (k' == k) = true
     · simp [h, lookupSeg]
-    · simp [h, lookupSeg, ih]
+    · simp only [h, Bool.false_eq_true, if_false]
+      split
+      · simp [lookupSeg]
+      · simp [lookupSeg, h, ih]
 
 theorem lookupSeg_upsert_other (cs : List (Bytes × Node)) (k k2 : Bytes) (v : Node) (hne : k ≠ k2) :
     lookupSeg (upsertSeg cs k v) k2 = lookupSeg cs k2 := by
+  unfold upsertSeg
+  have hne' : (k == k2) = false := by simpa using hne
   induction cs with
-  | nil => simp [upsertSeg, lookupSeg, hne]
+  | nil => simp [upsertKV, lookupSeg, hne']
   | cons p rest ih =>
     obtain ⟨k', v'⟩ := p
-    unfold upsertSeg
+    unfold upsertKV
     by_cases h : (k' == k) = true
     · have hk : k' = k := by simpa using h
       subst hk
-      simp [lookupSeg, hne]
-    · simp only [h]
-      simp only [lookupSeg, ih, Bool.false_eq_true, if_false]
+      simp [lookupSeg, hne']
+    · simp only [h, Bool.false_eq_true, if_false]
+      split
+      · simp [lookupSeg, hne']
+      · simp only [lookupSeg, ih]
 
 theorem lookupVar_upsert_same (vs : List (Var × Node)) (v : Var) (c : Node) :
     ∃ v', lookupVar (upsertVar vs v c) v.name = some (v', c) ∧ v'.name = v.name := by
@@ -128,23 +136,30 @@ theorem lookupVar_mem (vs : List (Var × Node)) (name : Bytes) (v : Var) (c : No
 
 theorem lookupMeth_upsert (ms : List (Bytes × Meth)) (k k2 : Bytes) (m : Meth) :
     lookupMeth (upsertMeth ms k m) k2 = if k = k2 then some m else lookupMeth ms k2 := by
+  unfold upsertMeth
   induction ms with
   | nil =>
-    by_cases h : k = k2 <;> simp [upsertMeth, lookupMeth, h]
+    by_cases h : k = k2 <;> simp [upsertKV, lookupMeth, h]
   | cons p rest ih =>
     obtain ⟨k', m'⟩ := p
-    unfold upsertMeth
+    unfold upsertKV
     by_cases hk : (k' == k) = true
     · have : k' = k := by simpa using hk
       subst this
       by_cases h : k' = k2 <;> simp [lookupMeth, h]
-    · simp only [hk, Bool.false_eq_true, if_false, lookupMeth, ih]
-      by_cases h2 : (k' == k2) = true
-      · have : k' = k2 := by simpa using h2
-        subst this
-        have : ¬ k = k' := by intro h; subst h; simp at hk
-        simp [this]
-      · simp [h2]
+    · simp only [hk, Bool.false_eq_true, if_false]
+      have hkk : ¬ k = k' := by intro h; subst h; simp at hk
+      split
+      · by_cases h : k = k2
+        · simp [lookupMeth, h]
+        · have : (k == k2) = false := by simpa using h
+          simp [lookupMeth, h, this]
+      · simp only [lookupMeth, ih]
+        by_cases h2 : (k' == k2) = true
+        · have : k' = k2 := by simpa using h2
+          subst this
+          simp [hkk]
+        · simp [h2]
 
 def verbKey (verb : Bytes) : Option Bytes := if verb == starVerb then none else some verb
 
